@@ -29,7 +29,7 @@ from mapproxy.service.base import Server
 from mapproxy.response import Response
 from mapproxy.source import SourceError
 from mapproxy.exception import RequestError
-from mapproxy.image import bbox_position_in_image, SubImageSource, BlankImageSource, GeoReference
+from mapproxy.image import bbox_position_in_image, SubImageSource, BlankImageSource, GeoReference, ImageSource
 from mapproxy.image.merge import concat_legends, LayerMerger
 from mapproxy.image.opts import ImageOptions
 from mapproxy.image.message import attribution_image, message_image
@@ -149,6 +149,11 @@ class WMSServer(Server):
 
         if query != orig_query:
             result = SubImageSource(result, size=orig_query.size, offset=offset, image_opts=img_opts)
+            if not img_opts.transparent:
+                # SubImageSource pads with fully transparent pixels of the
+                # background color, the client asked for an opaque image
+                result = ImageSource(result.as_image().convert('RGB'), size=orig_query.size,
+                                     image_opts=img_opts, cacheable=result.cacheable)
 
         # Provide the wrapping WSGI app or filter the opportunity to process the
         # image before it's wrapped up in a response
